@@ -242,6 +242,9 @@ func runC15(r *Run) {
 		cfg = algoCfg{Name: "vegas", Initial: 1 + t.Intn(60, "initial"), Smoothing: smoothings[t.Intn(len(smoothings), "smoothing")]}
 		cfg.Max = cfg.Initial + t.Intn(300, "max")
 		cfg.ProbeMult = 1 + t.Intn(60, "mult")
+		if t.Chance(8, "smallest-probe-period") {
+			cfg.ProbeMult, cfg.Initial, cfg.Max = 1, 1, 1+t.Intn(2, "tiny-max") // resets due within (multiplier x limit) = 1..2 samples
+		}
 		if t.Chance(15, "default-constructor") {
 			// NewDefaultVegasLimit / NewDefaultVegasLimitWithLimit: probe multiplier 30, maximum 1000, no smoothing
 			cfg.Ctor, cfg.ProbeMult, cfg.Max, cfg.Smoothing = "default-with-limit", 30, 1000, 1.0
